@@ -30,10 +30,12 @@ that fact on the parsed trees and are skipped when it does not hold.
 
   if not C: A else: B               ==>          if C: B else: A    (only when both arms are present)
 
+  a, b = L[-2:]; del L[-2:]         ==>          b = L.pop(); a = L.pop()
+
   if C: ...; return V
   raise E                           ==>          if not C: raise E; ...; return V     (at the end of a block)
 
-  x in range(a, b)                  ==>          a <= x <= b - 1    (x a name; `range` literal or a module constant)
+  x in range(a, b)                  ==>          a <= x < b          (x a name; `range` literal or a module constant)
 
 Line/column positions of the rewritten nodes are those of the original statement, so reports still point at it.
 """
@@ -243,6 +245,7 @@ class Normaliser:
         out: list[ast.stmt] = []
         for st in body:
             out.extend(self.stmt(st))
+        out = self.slice_pops(out)
         out = self.sink_into_arms(out)
         # if C: ...; return V          if not C: raise E
         # raise E               ==>    ...; return V            (error exits are spelled as guards)
@@ -254,6 +257,30 @@ class Normaliser:
             self.hit("return-then-raise->guard")
             out = out[:-2] + [guard] + list(g.body)
         return out
+
+    def slice_pops(self, stmts: list[ast.stmt]) -> list[ast.stmt]:
+        """a, b = L[-2:]; del L[-2:]   ==>   b = L.pop(); a = L.pop()     (the same values and the same final L whenever L holds at
+        least that many items; with fewer both spellings raise)"""
+        i = 0
+        while i + 1 < len(stmts):
+            a, d = stmts[i], stmts[i + 1]
+            if isinstance(a, ast.Assign) and len(a.targets) == 1 and isinstance(a.targets[0], ast.Tuple) and all(isinstance(x, ast.Name) for x in a.targets[0].elts) \
+                    and isinstance(a.value, ast.Subscript) and isinstance(a.value.slice, ast.Slice) and a.value.slice.upper is None and a.value.slice.step is None \
+                    and isinstance(d, ast.Delete) and len(d.targets) == 1 and isinstance(d.targets[0], ast.Subscript) \
+                    and ast.dump(d.targets[0].value) == ast.dump(a.value.value) and ast.dump(d.targets[0].slice) == ast.dump(a.value.slice):
+                lo = a.value.slice.lower
+                n = len(a.targets[0].elts)
+                if isinstance(lo, ast.UnaryOp) and isinstance(lo.op, ast.USub) and isinstance(lo.operand, ast.Constant) and lo.operand.value == n:
+                    new = []
+                    for x in reversed(a.targets[0].elts):
+                        call = ast.Call(func=ast.Attribute(value=copy.deepcopy(a.value.value), attr="pop", ctx=ast.Load()), args=[], keywords=[])
+                        new.append(ast.fix_missing_locations(ast.copy_location(ast.Assign(targets=[ast.Name(id=x.id, ctx=ast.Store())], value=call), a)))
+                    stmts = stmts[:i] + new + stmts[i + 2:]
+                    self.hit("slice-unpack+del->pops")
+                    i += n
+                    continue
+            i += 1
+        return stmts
 
     def sink_into_arms(self, stmts: list[ast.stmt]) -> list[ast.stmt]:
         i = 0
@@ -551,13 +578,12 @@ class _Expr(ast.NodeTransformer):
             if isinstance(r, ast.Call) and isinstance(r.func, ast.Name) and r.func.id == "range" and 1 <= len(r.args) <= 2 and not r.keywords:
                 lo = r.args[0] if len(r.args) == 2 else ast.Constant(value=0)
                 hi = r.args[-1]
+                upper: ast.cmpop = ast.LtE()
                 if isinstance(hi, ast.BinOp) and isinstance(hi.op, ast.Add) and isinstance(hi.right, ast.Constant) and hi.right.value == 1:
                     hi = hi.left
-                elif isinstance(hi, ast.Constant) and isinstance(hi.value, int):
-                    hi = ast.Constant(value=hi.value - 1)
                 else:
-                    hi = ast.BinOp(left=hi, op=ast.Sub(), right=ast.Constant(value=1))
-                new: ast.AST = ast.Compare(left=copy.deepcopy(lo), ops=[ast.LtE(), ast.LtE()], comparators=[node.left, copy.deepcopy(hi)])
+                    upper = ast.Lt()
+                new: ast.AST = ast.Compare(left=copy.deepcopy(lo), ops=[ast.LtE(), upper], comparators=[node.left, copy.deepcopy(hi)])
                 if isinstance(node.ops[0], ast.NotIn):
                     new = ast.UnaryOp(op=ast.Not(), operand=new)
                 self.n.hit("in-range->chain")
